@@ -140,7 +140,7 @@ impl Responder {
                 self.version,
                 bytes_sent,
                 src_addr,
-                HEX.encode(&nonce[0..4]),
+                HEX.encode(&nonce[..nonce.len().min(4)]),
                 idx + 1,
             );
 
